@@ -129,7 +129,9 @@ def _classify(sysd):
                         rowclass[i] = float(min(1e-3, max(RTOL, 1e-15 / abs(2 * C * h) ** 3)))
                     else:
                         tags.add("rb-damped-velocity-only")
-                        rowclass[i] = 1e-3
+                        # damping enters the velocity recurrence exactly; only the displacement
+                        # coefficients ignore it (the documented 1e-3 cut-off accuracy)
+                        rowclass[i] = dict(d=1e-3, v=1e-7, a=1e-7)
                 elif C != 0:
                     rowclass[i] = 1e-3
                     tags.add("rb-damping-ignored")
@@ -350,6 +352,8 @@ def path_fn(name, sysd, tier, order, ic, nt, vsel=None):
                         rterm = ref[bi][j]
                         nrm = max(coeff_norm1(rterm), Fraction(1, 1000) * rowscale[nm][bi])
                         rc = rowclass[bi]
+                        if isinstance(rc, dict):
+                            rc = rc[nm]
                         rt = rc if isinstance(rc, float) else RTOL
                         tol = Fraction(rt) * nrm
                         if nm == "a" and bi in rf:
@@ -439,7 +443,8 @@ def replay(payload):
             for nm, got, ref in (("d", D, RD), ("v", V, RV)):
                 err = abs(got[i] - ref[bi]).max()
                 rel = err / max(abs(ref[bi]).max(), 1e-3 * scale)
-                lim = rowclass[bi] if isinstance(rowclass[bi], float) else RTOL
+                rcv = rowclass[bi][nm] if isinstance(rowclass[bi], dict) else rowclass[bi]
+                lim = rcv if isinstance(rcv, float) else RTOL
                 if rel > lim and (worst is None or rel > worst[0]):
                     worst = (rel, "%s: %s row %d differs from the closed form by %.3e (relative %.2e)" % (v["vname"], nm, bi, err, rel))
     sysdesc = "system %s (order=%d, ic=%s) F=%s d0=%s v0=%s" % (p["name"], order, ic, Ff.tolist(), [float(x) for x in d0q], [float(x) for x in v0q])
